@@ -4,8 +4,8 @@ succession of connection / queue objects, the worker threads with their start ga
 cancel events and their registry, and `disconnect(shutdown)` with its local variables — one step per shared access.
 
 Threads are records in a list (`St.th`); the thread id is the index.  A thread runs *frames*: `disconnect()` (points
-`d0 … dfin`, with the part `s1 … s8` that only `disconnect(True)` runs) and `connect()` (`c0 … cend`); `Th.ret` is where it
-goes on when the frame returns.  What a step observed of the environment (connection refused / accepted, a reply came or
+`d0 … dfin`, with the part `s1 … s8` that only `disconnect(True)` runs) and `connect()` (`c0 … cend`); what it goes on with
+when the frame returns depends on the kind of thread (`afterDisc`, `afterConnect`).  What a step observed of the environment (connection refused / accepted, a reply came or
 not, readline closed, raise or wait) is the number `o` of the act.
 
 `Cfg.keepMarker` / `Cfg.joinAll` select the code as repaired (`true`) or as it was (`false`):
@@ -70,7 +70,6 @@ structure Conn where
 structure Th where
   kind : Kind
   pc : Pc
-  ret : Pc := .done           -- where the thread goes on when its frame returns
   sd : Bool := false          -- the `shutdown` argument of its disconnect()
   io : Option Nat := none     -- local `io`
   io2 : Option Nat := none    -- local `newio`
@@ -137,8 +136,14 @@ def afterConnect (t : Th) : Th :=
   | .rxw => if t.raised then { t with pc := .rf0, sd := true, raised := false } else { t with pc := .rhbq }
   | _ => { t with pc := .done }
 
-def startDisc (t : Th) (sd : Bool) (ret : Pc) : Th :=
-  { t with pc := .d0, sd := sd, ret := ret, io := none, io2 := none, w := none, cw := none, snap := [], marker := false }
+/-- where a thread goes on after `disconnect()` returned: the rx thread looks whether to start a reconnect thread -/
+def afterDisc (t : Th) : Th :=
+  match t.kind with
+  | .rxw => { t with pc := .rr0 }
+  | _ => { t with pc := .done }
+
+def startDisc (t : Th) (sd : Bool) : Th :=
+  { t with pc := .d0, sd := sd, io := none, io2 := none, w := none, cw := none, snap := [], marker := false }
 
 /-- one step of thread `me` (record `t`); `none`: blocked, or the model does not cover it -/
 def stepTh (cfg : Cfg) (s : St) (me : Nat) (t : Th) (o : Nat) : Option (St × Th) :=
@@ -150,7 +155,7 @@ def stepTh (cfg : Cfg) (s : St) (me : Nat) (t : Th) (o : Nat) : Option (St × Th
   | .s2 =>
     match s.connAttr with
     | none => some (s, { t with pc := .s6 })
-    | some c => if c = me then some (s, { t with pc := .dfin }) else some (s, { t with pc := .s3, w := some c })
+    | some c => if c = me then some (s, { t with pc := .dfin, ep := none }) else some (s, { t with pc := .s3, w := some c })
   | .s3 => some (s, { t with pc := if s.cancelAttr.isSome then .s3b else .s4, cw := s.cancelAttr })
   | .s3b => some (match t.cw with | some r => setCancel s r | none => s, { t with pc := .s4 })
   | .s4 => match t.w with
@@ -202,7 +207,7 @@ def stepTh (cfg : Cfg) (s : St) (me : Nat) (t : Th) (o : Nat) : Option (St × Th
     | m :: r => some (setQueue s t.q r, { t with marker := t.marker || (m && cfg.keepMarker) })
   | .d12 => some (s, { t with pc := if t.marker && s.txAttr.isSome then .d12p else .dfin })
   | .d12p => some (setQueue s t.q (queueOf s t.q ++ [true]), { t with pc := .dfin })
-  | .dfin => some (s, { t with pc := t.ret })
+  | .dfin => some (s, afterDisc t)
   -- ---------------- connect()
   | .c0 => if s.lock.isNone then some ({ s with lock := some me }, { t with pc := .c1, raised := false }) else none
   | .c1 => some (s, { t with pc := if s.io.isSome then .cend else .c2 })
@@ -252,7 +257,7 @@ def stepTh (cfg : Cfg) (s : St) (me : Nat) (t : Th) (o : Nat) : Option (St × Th
     | false :: r => some (setQueue s t.q r, { t with pc := if o = 2 then .tcheck else .tproc })   -- o = 2: parked
   | .tproc => some (s, { t with pc := if s.io.isSome then .tsend else .tx0 })   -- `self.io.send`; None: AttributeError, caught
   | .tsend => some (s, { t with pc := if o = 1 then .tx0 else .tcheck })
-  | .tx0 => some ({ s with txAttr := none }, startDisc t false .done)
+  | .tx0 => some ({ s with txAttr := none }, startDisc t false)
   -- ---------------- the rx thread
   | .rgate => if gateOpen s t.conn then some (s, { t with pc := .rcheck }) else none
   | .rcheck => some (s, { t with pc := if s.running then .rio else .rf0, sd := false })
@@ -266,7 +271,7 @@ def stepTh (cfg : Cfg) (s : St) (me : Nat) (t : Th) (o : Nat) : Option (St × Th
     else some (s, { t with pc := .rcheck })
   | .rhbq => some (s, { t with q := s.txq, pc := .rhb })
   | .rhb => some (setQueue s t.q (queueOf s t.q ++ [false]), { t with pc := .rcheck })
-  | .rf0 => some ({ s with rxAttr := none }, startDisc t t.sd .rr0)
+  | .rf0 => some ({ s with rxAttr := none }, startDisc t t.sd)
   | .rr0 => some (s, { t with pc := if s.shutdown then .done else if cfg.activate then .rr1 else .done })
   | .rr1 => some ({ s with cancelAttr := some s.th.length }, { t with pc := .rr1b })
   | .rr1b => some ({ s with th := s.th ++ [{ kind := .recon, pc := .kreg }] }, { t with pc := .rr2, w := some s.th.length })
